@@ -320,35 +320,33 @@ def classOk (neg : Bool) (items : List CItem) : Bool :=
   !items.isEmpty && itemsShapeOk true items && (parseItems items).isSome &&
   (neg || items.head? != some (.raw cCaret))
 
-def isAtom : Regex → Bool
-  | .chr c => c != 0
-  | .any => true
-  | .set neg items => classOk neg items
-  | .grp _ => true
-  | _ => false
+/-- The grammar level of a tree whose printed form reads back as the same tree:
+    0 atom, 1 piece, 2 seq, 3 alt; `none` when it does not. -/
+def level : Regex → Option Nat
+  | .void => none
+  | .ugrp _ => none
+  | .eps => some 2
+  | .chr c => if c != 0 then some 0 else none
+  | .any => some 0
+  | .set neg items => if classOk neg items then some 0 else none
+  | .grp a => if (level a).isSome then some 0 else none
+  | .star a => if level a == some 0 then some 1 else none
+  | .plus a => if level a == some 0 then some 1 else none
+  | .opt a => if level a == some 0 then some 1 else none
+  | .cat a b =>
+    match level a, level b with
+    | some la, some lb => if la ≤ 2 && lb ≤ 2 then some 2 else none
+    | _, _ => none
+  | .alt a b =>
+    match level a, level b with
+    | some la, some _ => if la ≤ 2 then some 3 else none
+    | _, _ => none
 
-mutual
-  /-- `alt` level -/
-  def wfAlt : Regex → Bool
-    | .alt a b => wfSeq a && wfAlt b
-    | r => wfSeq r
-  /-- `seq` level -/
-  def wfSeq : Regex → Bool
-    | .eps => true
-    | .cat a b => wfSeq a && wfSeq b
-    | r => wfPiece r
-  def wfPiece : Regex → Bool
-    | .star a => wfAtom a
-    | .plus a => wfAtom a
-    | .opt a => wfAtom a
-    | r => wfAtom r
-  def wfAtom : Regex → Bool
-    | .chr c => c != 0
-    | .any => true
-    | .set neg items => classOk neg items
-    | .grp a => wfAlt a
-    | _ => false
-end
+/-- `seq` level or below. -/
+def wfSeq (r : Regex) : Bool :=
+  match level r with
+  | some l => l ≤ 2
+  | none => false
 
 /-- The printed form of `t` lies inside the subset grammar (hence compiles, and means `Top.matches`). -/
 def Top.wf (t : Top) : Bool := wfSeq t.body
